@@ -201,7 +201,8 @@ def _libs():
 
 
 def _val(v):
-    return fbits(v)
+    n_ = _number(v)
+    return fbits(n_ if n_ is not None else float('nan'))
 
 
 def _number(v):
@@ -209,6 +210,8 @@ def _number(v):
     try:
         if isinstance(v, (bool, str, bytes)) or v is None:
             return None
+        if isinstance(v, np.ndarray) and v.size == 1:
+            return float(v.reshape(-1)[0])
         return float(v)
     except Exception:
         return None
@@ -471,13 +474,18 @@ def execute(plan, stats=None, check=True, want_events=True):
                 s.tainted = poisoned_run
                 events.append([k, stp['s'], 'RESTART'])
             elif op == 'SNAPSHOT':
-                s.snaps.append(copy.deepcopy(s.cache))
+                try:
+                    s.snaps.append(copy.deepcopy(s.cache))
+                except Exception:
+                    # a cache that cannot be copied (it may legitimately hold a lock or a handle): the caller simply
+                    # cannot take this snapshot; a later ROLLBACK to it is a no-op
+                    s.snaps.append(None)
                 s.snap_taint.append(s.tainted)
                 bump('fault.SNAPSHOT')
                 events.append([k, stp['s'], 'SNAPSHOT', len(s.snaps) - 1])
             elif op == 'ROLLBACK':
                 j = stp.get('j', 0)
-                if j < len(s.snaps):
+                if j < len(s.snaps) and s.snaps[j] is not None:
                     if s.mode == 'shared' and len(s.cache) != len(s.snaps[j]):
                         nontrivial_fault = True
                         bump('fault.ROLLBACK')
@@ -559,7 +567,7 @@ def execute(plan, stats=None, check=True, want_events=True):
 
 def _check_definition(s, R, v, k, bump):
     n = len(s.points)
-    v = float(v)
+    v = _number(v)
     pts = s.orig
     # O3 range / identities
     if (v != v or math.isinf(v)) and s.api == 'cost:rmsle' and refmodel.rmsle_nan_admitted(pts, R):
@@ -618,7 +626,7 @@ def _check_mip(ev, s, R, mv, mad, k):
         his.append(rhi - flo + sl)
     lo = float(np.median(np.array(los)))
     hi = float(np.median(np.array(his)))
-    mvf = float(mv)
+    mvf = _number(mv)
     if not (lo <= mvf <= hi):
         raise Violation('O5', k, {'mip': fhex(mv), 'lo': fhex(lo), 'hi': fhex(hi), 'R': R, 'why': 'MIP outside the reference interval'})
     # |ip_i - mip| with ip_i in [los_i, his_i] and mip in [lo, hi]
@@ -630,7 +638,7 @@ def _check_mip(ev, s, R, mv, mad, k):
         dhi.append(max(abs(a - hi), abs(b - lo)))
     mlo = float(np.median(np.array(dlo))) * (1 - 1e-12)
     mhi = float(np.median(np.array(dhi))) * (1 + 1e-12) + 1e-300
-    if not (mlo <= float(mad) <= mhi):
+    if not (mlo <= _number(mad) <= mhi):
         raise Violation('O5', k, {'mad': fhex(mad), 'lo': fhex(mlo), 'hi': fhex(mhi), 'R': R, 'why': 'MAD outside the reference interval'})
 
 
